@@ -717,7 +717,8 @@ fn gen_rq(r: &mut Rng, lo: i64, hi: i64) -> String {
     };
     match r.below(10) {
         0 | 1 => format!("or({}|{})", leaf(r), leaf(r)),
-        2 | 3 => format!("and({}|{})", leaf(r), leaf(r)),
+        2 => format!("and({}|{})", leaf(r), leaf(r)),
+        3 => { let (a, b) = (k(r), k(r)); format!("and(ge:{}|le:{})", a.min(b), a.max(b)) }
         4 => format!("not({})", leaf(r)),
         5 => format!("and({}|{}|{})", leaf(r), leaf(r), leaf(r)),
         _ => leaf(r),
@@ -725,11 +726,12 @@ fn gen_rq(r: &mut Rng, lo: i64, hi: i64) -> String {
 }
 
 /// a filter over one single-field index (rarely over an index name that does not exist)
-fn gen_q(r: &mut Rng) -> String {
+fn gen_q(r: &mut Rng, g: &GenCfg) -> String {
     if r.chance(1, 25) { return format!("q 30 {}", gen_rq(r, 0, 3)); }
     let singles: Vec<&(&str, &[usize])> = BT.iter().filter(|b| b.1.len() == 1).collect();
     let (name, fs) = **r.pick(&singles);
-    let (lo, hi) = if fs[0] == 5 { (-3, 3) } else { (0, 9) };
+    // probe values around the values the generator stores in that field
+    let (lo, hi) = match fs[0] { 5 => (-3, 3), 1 | 3 => (0, g.universe + 1), 2 => (0, (g.universe - 1).clamp(1, 8) + 1), _ => (0, 4) };
     format!("q {} {}", bt_rank(name), gen_rq(r, lo, hi))
 }
 
@@ -796,7 +798,7 @@ pub fn gen_case(r: &mut Rng, g: &GenCfg) -> Vec<String> {
             80..=82 => ops.push(format!("rm {}", 1 + r.below(next_id + 1))),
             83..=85 => ops.push("reopen".into()),
             86 | 87 => ops.push("flush".into()),
-            88..=94 => ops.push(gen_q(r)),
+            88..=94 => ops.push(gen_q(r, g)),
             _ => { ops.push("reopen".into()); for _ in 0..1 + r.usize(2) { ops.push(gen_ix_op(r)); } }
         }
     }
